@@ -65,6 +65,55 @@ def _saenger_lookup_pinned(chk, ds) -> None:
         chk.expect(hits == 1 and none_ret, "saenger-lookup", ds.where, "Saenger class = table[(bases in pair order, lw name)] when present, else None", "detect_saenger does not look up (base_i + base_j, lw.value) in Saenger.table() and return None otherwise", K(ds, "lookup"))
 
 
+def _saenger_lookup_by_value(chk, ds, table) -> bool:
+    """detect_saenger evaluated (sa/blockeval.py) on every (base, base, Leontis-Westhof class) over the letters of the table and an
+    unknown one, with the evaluated Saenger table: the result is the class filed under (bases in pair order, lw) and None when there
+    is none - whatever the shape of the code.  False when the function is not evaluable (the reading of the form decides then)."""
+    from sa.blockeval import BlockEval, Unknown
+
+    class _Enum:
+        _folder_stub = True
+
+        def table(self):
+            return dict(table)
+
+        def __getitem__(self, name):
+            if name not in set(table.values()):
+                raise KeyError(name)
+            return ("Saenger", name)
+
+    class _Obj:
+        _folder_stub = True
+
+        def __init__(self, **kw):
+            self.__dict__.update(kw)
+
+    params = [a.arg for a in ds.node.args.args]
+    if len(params) != 3:
+        return False
+    letters = sorted({c for k in table for c in k[0]} | {"N"})
+    lws = [c + a + b for c in "ct" for a in "WHS" for b in "WHS"]
+    bad: List[str] = []
+    n = 0
+    for bi in letters:
+        for bj in letters:
+            for lw in lws:
+                env = {params[0]: _Obj(one_letter_name=bi), params[1]: _Obj(one_letter_name=bj), params[2]: _Obj(value=lw, name=lw), "Saenger": _Enum()}
+                try:
+                    kind, val = BlockEval(chk.repo, AN, env).run(ds.node.body)
+                    got = val if kind == "return" else None
+                except Unknown:
+                    return False
+                except Exception as ex:
+                    got = f"raises {type(ex).__name__}"
+                n += 1
+                want = ("Saenger", table[(bi + bj, lw)]) if (bi + bj, lw) in table else None
+                if got != want:
+                    bad.append(f"{bi}{bj} {lw}: {got[1] if isinstance(got, tuple) else got}, expected {want[1] if want else None}")
+    chk.expect(not bad, "saenger-lookup", ds.where, f"evaluated on {n} (base, base, class) triples: the Saenger class is table[(bases in pair order, lw)] when present, else None", f"detect_saenger does not return the class filed under (bases in pair order, lw), or None when there is none, for {len(bad)} of {n} triples: " + "; ".join(bad[:4]), K(ds, "lookup"), found=bad[:8])
+    return True
+
+
 def check_saenger(chk) -> None:
     repo = chk.repo
     tf = repo.func(CM, "Saenger.table")
@@ -131,7 +180,8 @@ def check_saenger(chk) -> None:
     ds = repo.func(AN, "detect_saenger")
     chk.note_function(ds)
     try:
-        c11e.check_saenger_lookup(chk, ds)
+        if not _saenger_lookup_by_value(chk, ds, table):
+            c11e.check_saenger_lookup(chk, ds)
     except (c11e.NotReadable, c11e.SX.TooManyPaths) as ex:
         chk.ok("reading", ds.where, f"detect_saenger: fact-level reading not possible ({str(ex)[:100]}); pinned-form rule used")
         _saenger_lookup_pinned(chk, ds)
